@@ -3,6 +3,7 @@ package main
 import (
 	"bytes"
 	"fmt"
+	"regexp"
 	"strings"
 
 	"github.com/yuin/goldmark/ast"
@@ -40,6 +41,8 @@ type tableShape struct {
 	rows           []int
 	bad            string
 }
+
+var rawTableTag = regexp.MustCompile(`(?i)</?(table|thead|tbody|tr|td|th)\b`)
 
 func tableShapes(out []byte) []tableShape {
 	toks, _ := scanHTML(out)
@@ -179,6 +182,11 @@ func runC17(c *Ctx) {
 	lawSweep(c, cfgs, items, "table-shape", func(d []byte) bool { return true }, func(m mdT, d []byte) (string, bool) {
 		out, e, p := convertSafe(m.md, d)
 		if e != "" || p != "" {
+			return "", false
+		}
+		if m.cf.Unsafe && rawTableTag.Match(d) {
+			// with raw HTML passed through, a <table> in the output may be the author's own
+			// markup, which the property does not speak about
 			return "", false
 		}
 		shapes := tableShapes(out)
